@@ -1,4 +1,5 @@
 """C16 - literals denote exactly the values they spell."""
+import sys
 import unicodedata
 
 from hypothesis import strategies as st
@@ -458,7 +459,17 @@ numbers = st.one_of(
               st.text('0123456789', min_size=1, max_size=400)),
     st.sampled_from(['0', '00', '007', '0.0', '1.0', '9' * 19, '1' + '0' * 40,
                      '0.1', '3.14', '2.50', '18446744073709551616',
-                     '9007199254740993', '0.30000000000000004']))
+                     '9007199254740993', '0.30000000000000004']),
+    # decimal numerals at the upper end of the finite doubles (308 / 309
+    # integer digits) and just beyond it
+    st.sampled_from([format(sys.float_info.max, 'f'),
+                     '1' + '0' * 308 + '.0', '9' * 308 + '.9',
+                     '17' + '0' * 307 + '.5', '1' + '0' * 307 + '.25',
+                     '179769313486231570' + '0' * 291 + '.0',
+                     '18' + '0' * 307 + '.0', '1' + '0' * 309 + '.0']),
+    st.builds(lambda lead, n, frac: lead + '0' * n + '.' + frac,
+              st.sampled_from(['1', '12', '17', '179', '9']),
+              st.integers(300, 310), digits))
 
 # (letters and digits whose compatibility / canonical normal forms differ
 # from themselves: micro sign, ohm and angstrom signs, ligature fi,
